@@ -98,8 +98,10 @@ structure CertKey where
   isToken : Bool
 deriving DecidableEq, Repr
 
-def sfxToken : Bytes := "+token".toUTF8.toList
-def sfxRSA : Bytes := "+rsa".toUTF8.toList
+/-- ASCII literal as bytes (reducible by `decide`, unlike `String.toUTF8`) -/
+def asc (s : String) : Bytes := s.toList.map fun c => UInt8.ofNat c.toNat
+def sfxToken : Bytes := asc "+token"
+def sfxRSA : Bytes := asc "+rsa"
 
 /-- `certKey.String()` -/
 def CertKey.str (ck : CertKey) : Bytes :=
@@ -154,7 +156,7 @@ structure Hello where
   curves : Option (List Nat)       -- SupportedCurves
   suites : List Nat                -- CipherSuites
 
-def alpnProto : Bytes := "acme-tls/1".toUTF8.toList
+def alpnProto : Bytes := asc "acme-tls/1"
 
 def wantsTokenCert (h : Hello) : Bool :=
   match h.protos with
@@ -198,13 +200,13 @@ inductive Res
   | expiredNotServed         -- only produced by `conform`: what the property demands for a stale m.state entry
   | served (c : Cert)        -- from m.state or the cache
   | issued (c : Cert)        -- freshly obtained from the CA
-deriving Repr
+deriving DecidableEq, Repr
 
 /-- in-memory `m.state` entry once its lock is free -/
 inductive StateVal
   | ready (c : Cert)
   | failed                   -- createCert failed: entry without certificate
-deriving Repr
+deriving DecidableEq, Repr
 
 structure World where
   whitelist : Option (List Bytes)     -- HostPolicy (none = nil = every host)
